@@ -1,6 +1,6 @@
 (* C16 proofs: invariants of the interleaved run (Model/Conc.v) and the audit of
    the source-derived effects (Gen/Effects.v). *)
-From Errdef Require Import Base.Str Base.Outcome Model.Core Model.GoErrors Model.Prog Model.Conc Gen.Effects Check.C16.
+From Errdef Require Import Base.Str Base.Outcome Model.Core Model.GoErrors Model.Prog Model.Conc Gen.Effects Spec.EffectsAudit Check.C16.
 Local Open Scope string_scope.
 Local Open Scope list_scope.
 
@@ -492,108 +492,6 @@ Qed.
 (* ================= 4. the effects read from the source ================= *)
 (* Audited by hand against /repo (see the comments); C16_effects_audited states that
    what srcgen extracts now is exactly this. *)
-
-(* Writes that are not to locals or to values allocated in the same function.
-   - fields.set: only called from the applyOption methods (below) on d.fields
-   - buildNode: the visited map is allocated per call by BuildCauseTree
-   - the applyOption methods write the definition handed in: every caller hands in
-     a definition it has just allocated (mutator_calls: "fresh def")
-   - the four package-variable writes are under their mutexes (pkgvar_accesses)
-   - unmarshaler options write the unmarshaler under construction in New *)
-Definition audited_write_sites : list (string * string * string) :=
-  [("errdef", "(*fields).set", "recv f.data (=)");
-   ("errdef", "(*fields).set", "recv f.lastIndex (++)");
-   ("errdef", "(*fields).set", "recv f.data[_] (=)");
-   ("errdef", "buildNode", "param visited[_] (=)");
-   ("errdef", "buildNode", "param visited[_] (=)");
-   ("errdef", "buildNode.func1", "param visited[_] (delete)");
-   ("errdef", "buildNode.func1", "param visited[_] (delete)");
-   ("errdef", "(*noTrace).applyOption", "param d.noTrace (=)");
-   ("errdef", "(*stackSkip).applyOption", "param d.stackSkip (+=)");
-   ("errdef", "(*stackDepth).applyOption", "param d.stackDepth (=)");
-   ("errdef", "(*stackSource).applyOption", "param d.stackSourceLines (=)");
-   ("errdef", "(*stackSource).applyOption", "param d.stackSourceDepth (=)");
-   ("errdef", "(*formatter).applyOption", "param d.formatter (=)");
-   ("errdef", "(*jsonMarshaler).applyOption", "param d.jsonMarshaler (=)");
-   ("errdef", "(*logValuer).applyOption", "param d.logValuer (=)");
-   ("errdef", "markSourceAvailable", "pkgvar sourceAvailable (=)");
-   ("errdef", "cacheSourceFile", "pkgvar sourceFileCache[_] (=)");
-   ("errdef", "VerifResetSourceState", "pkgvar sourceAvailable (=)");
-   ("errdef", "VerifResetSourceState", "pkgvar sourceFileCache (=)");
-   ("errdef", "VerifSourceState", "fresh-deep s.CachedFiles[_] (=)");
-   ("unmarshaler", "tryConvertViaJSON", "reflect-fresh targetPtr.Interface(...)[_] (json.Unmarshal)");
-   ("unmarshaler", "tryConvertPointer", "reflect-fresh ptrVal.Elem(...).Set(...)");
-   ("unmarshaler", "WithStrictMode.func1", "param u.strictMode (=)");
-   ("unmarshaler", "WithCustomFields.func1", "param u.customFieldKeys (= append)");
-   ("unmarshaler", "WithCustomFields.func1", "param u.customFieldKeys[_] (append base)");
-   ("unmarshaler", "WithSentinelErrors.func1", "param u.sentinelErrors (=)");
-   ("unmarshaler", "WithSentinelErrors.func1", "param u.sentinelErrors[_] (=)")].
-
-(* Every call of something that writes through its receiver or a parameter, with what
-   is handed in: a value allocated by the caller ("fresh"), or the caller's own
-   receiver / parameter (then the caller is itself in this table or in write_sites). *)
-Definition audited_mutator_calls : list (string * string * string * string) :=
-  [("errdef", "(*definition).With", "method applyOptions", "fresh def");
-   ("errdef", "(*definition).With", "method applyOptions", "fresh def");
-   ("errdef", "(*definition).WithOptions", "method applyOptions", "fresh def");
-   ("errdef", "(*definition).applyOptions", "method applyOption", "recv d");
-   ("errdef", "(*definition).BuildCauseTree", "buildNodes", "fresh visited");
-   ("errdef", "Define", "method applyOptions", "fresh def");
-   ("errdef", "buildNodes", "buildNode", "param visited");
-   ("errdef", "buildNode", "buildNodes", "param visited");
-   ("errdef", "(*field).applyOption", "method set", "param d.fields");
-   ("errdef", "fieldKeyFromOption", "method applyOption", "fresh def");
-   ("errdef", "Details.applyOption", "method set", "param def.fields");
-   ("unmarshaler", "New", "dynamic Option", "fresh u.unmarshaler")].
-
-(* the allocating functions the word "fresh" above leans on, verbatim *)
-Definition audited_fresh_sources : list (string * string * string) :=
-  [("errdef", "(*definition).clone", "{ clone := *d clone.fields = d.fields.clone() if d.isRoot() { clone.rootDef = d } return &clone }");
-   ("errdef", "newFields", "{ return &fields{ data: nil, lastIndex: 0, } }");
-   ("errdef", "(*fields).clone", "{ return &fields{ data: maps.Clone(f.data), lastIndex: f.lastIndex, } }");
-   ("errdef", "buildNodes", "{ if len(causes) == 0 { return nil } nodes := make([]*Node, 0, len(causes)) for _, c := range causes { if c == nil { continue } if node, ok := buildNode(c, visited); ok { nodes = append(nodes, node) } } return nodes }");
-   ("errdef", "buildNode", "{ val := reflect.ValueOf(err) if !val.IsValid() { return nil, false } if val.Kind() == reflect.Pointer || val.Kind() == reflect.Interface || val.Kind() == reflect.Map || val.Kind() == reflect.Slice || val.Kind() == reflect.Chan || val.Kind() == reflect.Func { ptr := val.Pointer() if _, ok := visited[ptr]; ok { visited[cycleMarker] = ptr return nil, false } visited[ptr] = ptr defer func() { if cyclePtr, hasCycle := visited[cycleMarker]; hasCycle && cyclePtr == ptr { node.IsCyclic = true delete(visited, cycleMarker) } delete(visited, ptr) }() } var causes []error if unwrapper, ok := err.(interface{ Unwrap() error }); ok { if nested := unwrapper.Unwrap(); nested != nil { causes = []error{nested} } } else if unwrapper, ok := err.(interface{ Unwrap() []error }); ok { causes = unwrapper.Unwrap() } return &Node{ Error: err, Causes: buildNodes(causes, visited), }, true }")].
-
-Definition audited_pkgvar_accesses : list (string * string * string * bool * string) :=
-  [("errdef.checkSourceAvailable", "sourceAvailable", "R", true, "sourceAvailableMu");
-   ("errdef.getCachedSourceFile", "sourceFileCache", "R", true, "sourceFileCacheMu");
-   ("errdef.markSourceAvailable", "sourceAvailable", "R", true, "sourceAvailableMu");
-   ("errdef.markSourceAvailable", "sourceAvailable", "W", true, "sourceAvailableMu");
-   ("errdef.cacheSourceFile", "sourceFileCache", "W", true, "sourceFileCacheMu");
-   ("errdef.VerifResetSourceState", "sourceAvailable", "W", true, "sourceAvailableMu");
-   ("errdef.VerifResetSourceState", "sourceFileCache", "W", true, "sourceFileCacheMu");
-   ("errdef.VerifSourceState", "sourceAvailable", "R", true, "sourceAvailableMu");
-   ("errdef.VerifSourceState", "sourceFileCache", "R", true, "sourceFileCacheMu")].
-
-Definition audited_lock_sites : list (string * string * string * string) :=
-  [("errdef.checkSourceAvailable", "sourceAvailableMu", "Lock", "defer");
-   ("errdef.getCachedSourceFile", "sourceFileCacheMu", "RLock", "defer");
-   ("errdef.markSourceAvailable", "sourceAvailableMu", "Lock", "defer");
-   ("errdef.cacheSourceFile", "sourceFileCacheMu", "Lock", "defer");
-   ("errdef.VerifResetSourceState", "sourceAvailableMu", "Lock", "explicit");
-   ("errdef.VerifResetSourceState", "sourceFileCacheMu", "Lock", "explicit");
-   ("errdef.VerifSourceState", "sourceAvailableMu", "Lock", "explicit");
-   ("errdef.VerifSourceState", "sourceFileCacheMu", "RLock", "explicit")].
-
-(* package variables nothing writes after initialisation: field constructors and
-   extractors, the definitions of package unmarshaler, two constants kept as variables *)
-Definition audited_pkgvar_init_only : list (string * string) :=
-  [("errdef", "optionsFromContextKey"); ("errdef", "detailsFieldKey");
-   ("errdef", "public"); ("errdef", "publicFrom"); ("errdef", "retryable"); ("errdef", "retryableFrom");
-   ("errdef", "unreportable"); ("errdef", "unreportableFrom");
-   ("errdef", "HTTPStatus"); ("errdef", "HTTPStatusFrom"); ("errdef", "LogLevel"); ("errdef", "LogLevelFrom");
-   ("errdef", "TraceID"); ("errdef", "TraceIDFrom"); ("errdef", "Domain"); ("errdef", "DomainFrom");
-   ("errdef", "UserHint"); ("errdef", "UserHintFrom"); ("errdef", "Public"); ("errdef", "IsPublic");
-   ("errdef", "Retryable"); ("errdef", "IsRetryable"); ("errdef", "RetryAfter"); ("errdef", "RetryAfterFrom");
-   ("errdef", "Unreportable"); ("errdef", "IsUnreportable"); ("errdef", "ExitCode"); ("errdef", "ExitCodeFrom");
-   ("errdef", "HelpURL"); ("errdef", "HelpURLFrom"); ("errdef", "DetailsFrom");
-   ("unmarshaler", "ErrDecodeFailure"); ("unmarshaler", "ErrUnknownKind"); ("unmarshaler", "ErrUnknownField");
-   ("unmarshaler", "ErrInternal"); ("unmarshaler", "kindField"); ("unmarshaler", "KindFromError");
-   ("unmarshaler", "fieldNameField"); ("unmarshaler", "FieldNameFromError");
-   ("unmarshaler", "redactedStr"); ("unmarshaler", "redactedBytes")].
-
-Definition audited_sync_typed : list (string * string) :=
-  [("errdef", "var sourceAvailableMu sync.Mutex"); ("errdef", "var sourceFileCacheMu sync.RWMutex")].
 
 (* checks on the generated tables themselves *)
 Definition acc_locked (a : string * string * string * bool * string) : bool := let '(_, _, _, h, _) := a in h.
